@@ -12,7 +12,8 @@ REPO = os.environ.get('VERIF_REPO', '/repo')
 class Job:
     def __init__(self, id, fn, level='Pbox', functions=(), extra=None, tiers=('quick', 'thorough'), num=True,
                  numdim=4, timeout=600, maxpaths=512, rtol=1e-6, atol=1e-8, nnum=None, assumptions=(), setup=None,
-                 rlimit=None):
+                 rlimit=None, allow_exc=False):
+        self.allow_exc = allow_exc
         self.id = id; self.fn = fn; self.level = level; self.functions = list(functions)
         self.extra = extra; self.tiers = tiers; self.num = num; self.numdim = numdim
         self.timeout = timeout; self.maxpaths = maxpaths; self.rtol = rtol; self.atol = atol
@@ -101,7 +102,7 @@ def run_job(args):
                 if kind == 'unsupported':
                     out['unsupported'].append(f"path {p.index}: {msg} | {tb.strip().splitlines()[-2:] if tb else ''}")
                     continue
-                if kind == 'exc':
+                if kind == 'exc' and not job.allow_exc:
                     obls = obls + [Obl('no_exception', p.facts + p.pc, z3.BoolVal(False), None, f"{msg}", 'unreachable')]
                 for o in obls:
                     key = (o.name, o.goal.get_id(), tuple(sorted(h.get_id() for h in o.hyps)))
@@ -151,7 +152,7 @@ def run_job(args):
                     fails = []
                     if c is not None:
                         fails = [f"{f.name}: {f.detail}" for f in c.numfails]
-                    if err and c is not None: fails.append(err)
+                    if err and c is not None and not job.allow_exc: fails.append(err)
                     rec['native'] = dict(reproduced=bool(fails), detail=fails[:5] if fails else [err or 'all contract clauses hold natively at the model values'],
                                          inputs=used)
             rng = np.random.default_rng(seed + 1)
@@ -161,7 +162,7 @@ def run_job(args):
                 out['numeric']['runs'] += 1
                 out['numeric']['checks'] += c.numchecks
                 fl = [dict(name=f.name, detail=f.detail, inputs=used) for f in c.numfails]
-                if err: fl.append(dict(name='no_exception', detail=err, inputs=used))
+                if err and not job.allow_exc: fl.append(dict(name='no_exception', detail=err, inputs=used))
                 for f in fl:
                     if len(out['numeric']['fails']) < 20: out['numeric']['fails'].append(f)
         signal.alarm(0)
